@@ -26,6 +26,7 @@ import traceback
 
 VERIF = os.path.dirname(os.path.dirname(os.path.abspath(__file__)))
 EXIT_OK, EXIT_VIOLATION, EXIT_INCONCLUSIVE = 0, 1, 2
+CURRENT_KNOWN = []  # ids of recorded (not repaired) findings of the property being checked; harnesses assume them away
 
 
 # ---------------------------------------------------------------------------------- json codec
@@ -87,6 +88,8 @@ def run_job(arg):
         from wsx import core, env, sxbuiltins
         from wsx.core import Engine, conc
         H = load_harness(prop)
+        global CURRENT_KNOWN
+        CURRENT_KNOWN = list(known_ids)
         ns = H.namespaces()  # (W, P)
         W, P = ns
         if job.get("custom"):
